@@ -1,12 +1,495 @@
 /-
-  C07 — High-level API operations mean what they say to a conforming BMC.  (under construction)
+  C07 — High-level API operations mean what they say to a conforming BMC.
+
+  Objects.
+  * `Spec.Bmc` (lean/PyIpmi/Spec/Bmc.lean): byte-level reference BMC `handle : BmcState → Req → BmcState × bytes`
+    with abstract accessors `get_X` / `set_X`; `Spec.Bmc.run : Call → BmcState → BmcState × Result` says what
+    each API call denotes (the oracle the real code is judged against on every check run).
+  * `Model.Api` (lean/PyIpmi/Model/Api/*.lean): each API operation of `pyipmi.Ipmi` as ONE `Exchange`
+    (request class + field values from the arguments, response class, result decoding), over the GENERATED
+    message layouts and conversion tables (`Gen/Registry.lean`, `Gen/Tables.lean`).  `x.run s` encodes the
+    request, hands the bytes to `handle s`, decodes the reply, checks the completion code.
+  * `s.Wf`: every stored value of the BMC fits the wire field that reports it (the only assumption on states);
+    `c.InRange`: the arguments are values the real code puts on the wire unchanged.
+
+  Theorems (all for ALL in-range arguments and ALL conforming BMC states; nothing is `_partial`: the sum
+  type `Call` has a constructor for every operation of the harness' op table, and every one is proved).
+  1. `write_*`   : `(api_set_X args).run s = (Spec.set_X (denote args) s, ok None)`          (32)
+  2. `read_*`    : `(api_get_X addr).run s = (s, ok (Spec.get_X addr s))`                     (31)
+  3. `model_refines_oracle`, `wf_invariant`, `history_refines`, `read_after_history`,
+     `read_depends_on_state_only` : the generic step and the induction over histories — the main theorem.
+  4. `table_*`   : laws of the generated conversion tables.
+  5. counter-examples for the two decoders that were defective as shipped.
 -/
-import PyIpmi.Spec.Bmc
+import PyIpmi.Lemmas.ApiAll
 namespace PyIpmi.Props.C07
-open PyIpmi PyIpmi.Spec.Bmc
+open PyIpmi PyIpmi.Codec PyIpmi.Spec.Bmc PyIpmi.Model.Api PyIpmi.Gen.Tables PyIpmi.Lemmas.Api
+
+set_option linter.unusedSimpArgs false
+set_option maxRecDepth 4000
+
+/-! ## 1. write refinement: the BMC ends in exactly the state the arguments denote -/
+
+theorem write_cold_reset (s : BmcState) : api_cold_reset.run s = (cold_reset s, .ok .unit) :=
+  cold_reset_refines s
+theorem write_warm_reset (s : BmcState) : api_warm_reset.run s = (warm_reset s, .ok .unit) :=
+  warm_reset_refines s
+
+/-- timer use / actions 3 bits each, interval and flags one byte, countdown 16 bits -/
+theorem write_set_watchdog_timer (c : WatchdogCfg) (s : BmcState)
+    (h : c.timerUse < 8 ∧ c.action < 8 ∧ c.preInterrupt < 8 ∧ c.preInterval < 256 ∧ c.clearFlags < 256 ∧ c.initial < 65536) :
+    (api_set_watchdog_timer c).run s = (set_watchdog c s, .ok .unit) :=
+  set_watchdog_refines c s h
+theorem write_reset_watchdog_timer (s : BmcState) : api_reset_watchdog_timer.run s = (reset_watchdog s, .ok .unit) :=
+  reset_watchdog_refines s
+
+theorem write_chassis_control (opt : Nat) (s : BmcState) (h : opt < 16) :
+    (api_chassis_control opt).run s = (chassis_control opt s, .ok .unit) :=
+  chassis_control_refines opt s h
+/-- chassis_control_power_down, _power_up, _power_cycle, _hard_reset, _diagnostic_interrupt, _soft_shutdown
+(idx 0..5) send the option IPMI 28.3 assigns to that name -/
+theorem write_chassis_control_named (idx : Nat) (s : BmcState) (h : idx < 6) :
+    (api_chassis_control_named idx).run s = (chassis_control idx s, .ok .unit) :=
+  chassis_control_named_refines idx s h
+theorem write_set_system_boot_options (sel : Nat) (data : List Nat) (invalid : Bool) (s : BmcState) (h : sel < 128) :
+    (api_set_system_boot_options sel data invalid).run s = (set_boot_param sel invalid data s, .ok .unit) :=
+  set_system_boot_options_refines sel data invalid s h
+/-- set_boot_options(device, mode, persistent) for every `BootDevice` member -/
+theorem write_set_boot_options (dev : BootDev) (efi persistent : Bool) (s : BmcState) :
+    (api_set_boot_options dev efi persistent).run s =
+      (set_boot_flags { valid := true, persistent := persistent, efi := efi, device := dev.code } s, .ok .unit) :=
+  set_boot_options_refines dev efi persistent s
+
+theorem write_set_lan_config_param (ch sel : Nat) (data : List Nat) (s : BmcState) (h1 : ch < 16) (h2 : sel < 256) :
+    (api_set_lan_config_param ch sel data).run s = (set_lan_param ch sel data s, .ok .unit) :=
+  set_lan_config_param_refines ch sel data s h1 h2
+theorem write_set_ip_address (ip : List Nat) (ch : Nat) (s : BmcState) (h : ch < 16) (hb : Bytes ip) :
+    (api_set_ip_address ip ch).run s = (set_lan_param ch 3 ip s, .ok .unit) :=
+  set_ip_address_refines ip ch s h hb
+/-- "static" ↦ 1, "dhcp" ↦ 2 -/
+theorem write_set_ip_source (code ch : Nat) (s : BmcState) (h : ch < 16) (hc : code = 1 ∨ code = 2) :
+    (api_set_ip_source code ch).run s = (set_lan_param ch 4 [code] s, .ok .unit) :=
+  set_ip_source_refines code ch s h hc
+theorem write_set_vlan_id (v ch : Nat) (s : BmcState) (h : ch < 16) (hv : v ≤ 4095) :
+    (api_set_vlan_id v ch).run s = (set_vlan ch (v != 0) v s, .ok .unit) :=
+  set_vlan_id_refines v ch s h hv
+
+theorem write_set_username (uid : Nat) (name : List Nat) (s : BmcState) (h1 : 1 ≤ uid) (h2 : uid < 64)
+    (h3 : name.length ≤ 16) :
+    (api_set_username uid name).run s = (set_user_name uid (padTo 16 name) s, .ok .unit) := by
+  rw [set_username_refines uid name s h2 h3, withUser_pos _ _ _ (by omega) h2]
+theorem write_set_user_access (a : UserAccessArgs) (s : BmcState) (h0 : 1 ≤ a.userId)
+    (h : a.userId < 64 ∧ a.channel < 16 ∧ a.privilege ∈ privCodes ∧ a.sessionLimit < 16) :
+    (api_set_user_access a).run s = (set_user_access a s, .ok .unit) := by
+  rw [set_user_access_refines a s h, withUser_pos _ _ _ (by omega) h.1]
+theorem write_set_user_password (uid : Nat) (pw : List Nat) (s : BmcState) (h1 : 1 ≤ uid) (h2 : uid < 64)
+    (h3 : pw.length ≤ 16) :
+    (api_set_user_password uid pw).run s = (set_user_password uid (padTo 16 pw) s, .ok .unit) := by
+  rw [set_user_password_refines uid pw s h2 h3, withUser_pos _ _ _ (by omega) h2]
+theorem write_enable_user (uid : Nat) (s : BmcState) (h1 : 1 ≤ uid) (h2 : uid < 64) :
+    (api_enable_user uid).run s = (set_user_enabled uid true s, .ok .unit) := by
+  rw [enable_user_refines uid s h2, withUser_pos _ _ _ (by omega) h2]
+theorem write_disable_user (uid : Nat) (s : BmcState) (h1 : 1 ≤ uid) (h2 : uid < 64) :
+    (api_disable_user uid).run s = (set_user_enabled uid false s, .ok .unit) := by
+  rw [disable_user_refines uid s h2, withUser_pos _ _ _ (by omega) h2]
+/-- user id 0 is reserved: the BMC answers CCh, nothing changes, the call raises CompletionCodeError(0xcc) -/
+theorem reserved_user_rejected (name : List Nat) (s : BmcState) (h : name.length ≤ 16) (hw : s.Wf) :
+    (api_set_username 0 name).run s = (s, .ccError 0xcc) ∧ (api_get_username 0).run s = (s, .ccError 0xcc) ∧
+    (api_enable_user 0).run s = (s, .ccError 0xcc) := by
+  refine ⟨?_, ?_, ?_⟩
+  · rw [set_username_refines 0 name s (by decide) h, withUser_zero]
+  · rw [get_username_refines 0 s (by decide) (userName_wf 0 s hw), withUser_zero]
+  · rw [enable_user_refines 0 s (by decide), withUser_zero]
+
+/-- thresholds in the order lnc lcr lnr unc ucr unr; `none` = keyword argument not given -/
+theorem write_set_sensor_thresholds (num lun : Nat) (vals : List (Option Nat)) (s : BmcState)
+    (h : num < 256 ∧ ∀ i v, vals.getD i none = some v → v < 256) :
+    (api_set_sensor_thresholds num lun vals).run s = (set_sensor_thresholds lun num vals s, .ok .unit) :=
+  set_sensor_thresholds_refines num lun vals s h
+theorem write_rearm_sensor_events (num : Nat) (s : BmcState) (h : num < 256) :
+    (api_rearm_sensor_events num).run s = (rearm_sensor 0 num s, .ok .unit) :=
+  rearm_sensor_events_refines num s h
+theorem write_send_platform_event (e : PlatformEvent) (s : BmcState)
+    (h : e.evmRev = 4 ∧ e.sensorType < 256 ∧ e.sensorNum < 256 ∧ e.eventType < 128 ∧ 1 ≤ e.data.length ∧ e.data.length ≤ 3) :
+    (api_send_platform_event e).run s = (platform_event e s, .ok .unit) :=
+  send_platform_event_refines e s h
+/-- the API takes the 7-bit IPMB address; the BMC stores the 8-bit slave address -/
+theorem write_set_event_receiver (addr7 lun : Nat) (s : BmcState) (h1 : addr7 < 128) (h2 : lun < 4) :
+    (api_set_event_receiver addr7 lun).run s = (set_event_receiver (2 * addr7) lun s, .ok .unit) :=
+  set_event_receiver_refines addr7 lun s h1 h2
+
+theorem write_fru_control (fru opt : Nat) (s : BmcState) (h1 : fru < 256) (h2 : opt < 256) :
+    (api_fru_control fru opt).run s = (fru_control fru opt s, .ok (.bytes [])) :=
+  fru_control_refines fru opt s h1 h2
+/-- fru_control_cold_reset, _warm_reset, _graceful_reboot, _diagnostic_interrupt (idx 0..3) -/
+theorem write_fru_control_named (idx fru : Nat) (s : BmcState) (h1 : idx < 4) (h2 : fru < 256) :
+    (api_fru_control_named idx fru).run s = (fru_control fru idx s, .ok (if idx = 3 then .bytes [] else .unit)) :=
+  fru_control_named_refines idx fru s h1 h2
+theorem write_set_fan_level (fru lvl : Nat) (s : BmcState) (h1 : fru < 256) (h2 : lvl < 256) :
+    (api_set_fan_level fru lvl).run s = (set_fan_level fru lvl (some 0) s, .ok .unit) :=
+  set_fan_level_refines fru lvl s h1 h2
+/-- override off / on / blinking (off-duration 1..250, on-duration a byte) and lamp test (< 128), colour a nibble -/
+theorem write_set_led_state (fru led : Nat) (c : LedCmd) (s : BmcState) (h1 : fru < 256) (h2 : led < 256)
+    (hc : c.InRange) :
+    (api_set_led_state fru led c).run s = (set_led fru led c s, .ok .unit) :=
+  set_led_state_refines fru led c s h1 h2 hc
+theorem write_set_fru_activation (fru : Nat) (on : Bool) (s : BmcState) (h : fru < 256) :
+    (api_set_fru_activation fru on).run s = (set_fru_activation fru on s, .ok .unit) :=
+  set_fru_activation_refines fru on s h
+theorem write_set_fru_activation_policy (fru ctrl : Nat) (s : BmcState) (h : fru < 256) :
+    (api_set_fru_activation_policy fru ctrl).run s = ((run (.setFruActivationPolicy fru ctrl) s).1, .ok .unit) := by
+  have := set_fru_activation_policy_refines fru ctrl s h
+  rcases ctrl with _ | _ | _ | _ | n <;> simpa [run] using this
+/-- set_fru_activation_lock, clear_fru_activation_lock, set_fru_deactivation_lock, clear_… (idx 0..3) -/
+theorem write_fru_lock_named (idx fru : Nat) (s : BmcState) (h1 : idx < 4) (h2 : fru < 256) :
+    (api_fru_lock_named idx fru).run s = ((run (.fruLockNamed idx fru) s).1, .ok .unit) := by
+  have := fru_lock_named_refines idx fru s h1 h2
+  rcases idx with _ | _ | _ | _ | n <;> simpa [run] using this
+theorem write_set_port_state (iface ch : Nat) (p : Port) (s : BmcState)
+    (h : iface < 4 ∧ ch < 64 ∧ p.hasLink = true ∧ p.Wf ∧ p.grouping < 256 ∧ p.state < 256) :
+    (api_set_port_state iface ch p).run s = (set_port iface ch p s, .ok .unit) :=
+  set_port_state_refines iface ch p s h
+theorem write_send_channel_power (ch : Nat) (enable : Bool) (lim pri bak : Nat) (s : BmcState)
+    (h : ch < 256 ∧ lim < 256 ∧ pri < 256 ∧ bak < 256) :
+    (api_send_channel_power ch enable lim pri bak).run s =
+      (power_channel_control ch (if enable then 5 else 4) lim pri bak s, .ok .unit) :=
+  send_channel_power_refines ch enable lim pri bak s h
+theorem write_send_pm_heartbeat (s : BmcState) : api_send_pm_heartbeat.run s = (pm_heartbeat s, .ok .unit) :=
+  send_pm_heartbeat_refines s
+theorem write_set_signaling_class (iface ch cls : Nat) (s : BmcState) (h1 : iface < 4) (h2 : ch < 64) (h3 : cls < 16) :
+    (api_set_signaling_class iface ch cls).run s = (set_signaling_class iface ch cls s, .ok .unit) :=
+  set_signaling_class_refines iface ch cls s h1 h2 h3
+
+/-! ## 2. read refinement: the result is the BMC's current state for the addressed object; the BMC is untouched -/
+
+theorem read_get_device_id (s : BmcState) (hw : s.Wf) :
+    api_get_device_id.run s = (s, .ok (.deviceId (get_device_id s))) :=
+  get_device_id_refines s hw.device
+theorem read_get_device_guid (s : BmcState) (hw : s.Wf) :
+    api_get_device_guid.run s = (s, .ok (.bytes (get_device_guid s))) :=
+  get_device_guid_refines s hw.guid
+theorem read_get_watchdog_timer (s : BmcState) (hw : s.Wf) :
+    api_get_watchdog_timer.run s = (s, .ok (.watchdog (get_watchdog s))) :=
+  get_watchdog_refines s hw.watchdog
+theorem read_get_chassis_status (s : BmcState) (hw : s.Wf) :
+    api_get_chassis_status.run s = (s, .ok (.chassis (get_chassis_status s))) :=
+  get_chassis_status_refines s hw.chassis
+theorem read_get_system_boot_options (sel setSel blk : Nat) (s : BmcState) (h : sel < 128 ∧ setSel < 256 ∧ blk < 256) :
+    (api_get_system_boot_options sel setSel blk).run s = (s, .ok (.bytes (get_boot_param sel setSel s))) :=
+  get_system_boot_options_refines sel setSel blk s h
+theorem read_get_boot_mode (s : BmcState) (hw : s.Wf) :
+    api_get_boot_mode.run s = (s, .ok (.bool (get_boot_flags s).efi)) :=
+  get_boot_mode_refines s (by have := bootFlags_wf s hw; omega)
+theorem read_get_boot_persistency (s : BmcState) (hw : s.Wf) :
+    api_get_boot_persistency.run s = (s, .ok (.bool (get_boot_flags s).persistent)) :=
+  get_boot_persistency_refines s (by have := bootFlags_wf s hw; omega)
+/-- the device the specification's table 28-14 names for the stored selector; KeyError for a reserved selector -/
+theorem read_get_boot_device (s : BmcState) (hw : s.Wf) :
+    api_get_boot_device.run s = present (s, .bootDev (BootDev.ofCode (get_boot_flags s).device)) :=
+  get_boot_device_refines s (bootFlags_wf s hw)
+
+theorem read_get_lan_config_param (ch sel setSel blk : Nat) (revOnly : Bool) (s : BmcState)
+    (h : ch < 16 ∧ sel < 256 ∧ setSel < 256 ∧ blk < 256) :
+    (api_get_lan_config_param ch sel setSel blk revOnly).run s =
+      (s, .ok (.bytes (if revOnly then [] else get_lan_param ch sel s))) :=
+  get_lan_config_param_refines ch sel setSel blk revOnly s h
+theorem read_get_ip_address (ch : Nat) (s : BmcState) (h : ch < 16) :
+    (api_get_ip_address ch).run s = (s, .ok (.ip (get_lan_param ch 3 s))) :=
+  get_ip_address_refines ch s h
+theorem read_get_ip_source (ch : Nat) (s : BmcState) (h : ch < 16) (hw : s.Wf) :
+    (api_get_ip_source ch).run s = present (s, .ipSource ((get_lan_param ch 4 s).getD 0 0 % 16)) :=
+  get_ip_source_refines ch s h ((lan_wf ch 4 s hw h (by omega)).2.1 (by simp [lanKey]))
+theorem read_get_mac_address (ch : Nat) (s : BmcState) (h : ch < 16) :
+    (api_get_mac_address ch).run s = (s, .ok (.mac (get_lan_param ch 5 s))) :=
+  get_mac_address_refines ch s h
+/-- the 12-bit VLAN id of LAN parameter 20, 0 while the VLAN is disabled -/
+theorem read_get_vlan_id (ch : Nat) (s : BmcState) (h : ch < 16) (hw : s.Wf) :
+    (api_get_vlan_id ch).run s = (s, .ok (.nat (let v := get_vlan ch s; if v.1 then v.2 else 0))) := by
+  have h20 := lan_wf ch 20 s hw h (by omega)
+  exact get_vlan_id_refines ch s h ⟨h20.1, by simp, fun _ => h20.2.2 (by simp [lanKey])⟩
+
+theorem read_get_username (uid : Nat) (s : BmcState) (h1 : 1 ≤ uid) (h2 : uid < 64) (hw : s.Wf) :
+    (api_get_username uid).run s = (s, .ok (.bytes (get_user_name uid s))) := by
+  rw [get_username_refines uid s h2 (userName_wf uid s hw)]
+  have : uid % 64 ≠ 0 := by omega
+  simp [withUser, present, Result.toOutcome, this]
+theorem read_get_user_access (uid ch : Nat) (s : BmcState) (h1 : 1 ≤ uid) (h2 : uid < 64) (h3 : ch < 16) (hw : s.Wf) :
+    (api_get_user_access uid ch).run s = (s, .ok (.userAccess (get_user_access ch uid s))) := by
+  rw [get_user_access_refines uid ch s h2 h3 hw.maxUsers hw.fixedNames (userEnabled_wf uid s hw)]
+  have : uid % 64 ≠ 0 := by omega
+  simp [withUser, present, Result.toOutcome, this]
+
+/-- sensor `num` on LUN `lun` — the request carries both -/
+theorem read_get_sensor_reading (num lun : Nat) (s : BmcState) (h : num < 256) (hw : s.Wf) :
+    (api_get_sensor_reading num lun).run s = (s, .ok (let r := get_sensor_reading lun num s; .optNatPair r.1 r.2)) :=
+  get_sensor_reading_refines num lun s h (sensor_wf lun num s hw)
+/-- the readable thresholds, each under its own name (index into lnc lcr lnr unc ucr unr) -/
+theorem read_get_sensor_thresholds (num lun : Nat) (s : BmcState) (h : num < 256) (hw : s.Wf) :
+    (api_get_sensor_thresholds num lun).run s = (s, .ok (.thresholds (get_sensor_thresholds lun num s))) :=
+  get_sensor_thresholds_refines num lun s h (sensor_wf lun num s hw)
+theorem read_get_event_receiver (s : BmcState) (hw : s.Wf) :
+    api_get_event_receiver.run s = (s, .ok (.natPair (s.evReceiverAddr / 2) s.evReceiverLun)) :=
+  get_event_receiver_refines s hw.evAddr hw.evLun
+
+theorem read_get_picmg_properties (s : BmcState) :
+    api_get_picmg_properties.run s = (s, .ok (.picmgProps s.picmgVersion s.maxFruId s.ipmcFruId)) :=
+  get_picmg_properties_refines s
+/-- power types 0..3; any other type is answered CCh and raised as CompletionCodeError -/
+theorem read_get_power_level (fru ty : Nat) (s : BmcState) (h1 : fru < 256) (h2 : ty < 256) (hw : s.Wf) :
+    (api_get_power_level fru ty).run s =
+      present (if ty ≤ 3 then (s, .power (get_power_level fru ty s)) else (s, .error ccInvalidField)) :=
+  get_power_level_refines fru ty s h1 h2 (power_wf fru ty s hw)
+theorem read_get_fan_speed_properties (fru : Nat) (s : BmcState) (h : fru < 256) :
+    (api_get_fan_speed_properties fru).run s =
+      (s, .ok (let f := get_fan fru s; .fanProps f.minLevel f.maxLevel f.normalLevel f.localSupported)) :=
+  get_fan_speed_properties_refines fru s h
+theorem read_get_fan_level (fru : Nat) (s : BmcState) (h : fru < 256) :
+    (api_get_fan_level fru).run s = (s, .ok (let f := get_fan fru s; .optNatPair (some f.overrideLevel) f.localLevel)) :=
+  get_fan_level_refines fru s h
+/-- LED `led` of FRU `fru`: local state, override state and durations from the OVERRIDE fields, lamp test -/
+theorem read_get_led_state (fru led : Nat) (s : BmcState) (h1 : fru < 256) (h2 : led < 256) (hw : s.Wf) :
+    (api_get_led_state fru led).run s = (s, .ok (.led (get_led_view fru led s))) :=
+  get_led_state_refines fru led s h1 h2 (led_wf fru led s hw)
+theorem read_get_port_state (ch iface : Nat) (s : BmcState) (h1 : ch < 64) (h2 : iface < 4) (hw : s.Wf) :
+    (api_get_port_state ch iface).run s = (s, (run (.getPortState ch iface) s).2.toOutcome) := by
+  rw [get_port_state_refines ch iface s h1 h2 (port_wf iface ch s hw)]
+  simp [run, Result.toOutcome]
+theorem read_get_pm_global_status (s : BmcState) (hw : s.Wf) :
+    api_get_pm_global_status.run s = (s, .ok (.pmGlobal s.pmGlobal)) :=
+  get_pm_global_status_refines s hw.pmGlobal
+theorem read_get_power_channel_status (start : Nat) (s : BmcState) (h : start < 256) (hw : s.Wf) :
+    (api_get_power_channel_status start).run s = (s, .ok (.nat (get_power_channel start s).status)) :=
+  get_power_channel_status_refines start s h (powerChannel_wf start s hw)
+theorem read_get_signaling_class (iface ch : Nat) (s : BmcState) (h1 : iface < 4) (h2 : ch < 64) (hw : s.Wf) :
+    (api_get_signaling_class iface ch).run s = (s, .ok (.nat (get_signaling_class iface ch s))) :=
+  get_signaling_class_refines iface ch s h1 h2 (sigClass_wf iface ch s hw)
+
+theorem read_get_upgrade_status (s : BmcState) :
+    api_get_upgrade_status.run s = (s, .ok (.hpmStatus s.hpm.cmdInProgress s.hpm.lastCc)) :=
+  get_upgrade_status_refines s
+theorem read_get_target_upgrade_capabilities (s : BmcState) (hw : s.Wf) :
+    api_get_target_upgrade_capabilities.run s = (s, .ok (.hpmCaps s.hpm.version s.hpm.components)) :=
+  get_target_upgrade_capabilities_refines s hw.hpmComponents
+theorem read_query_selftest_results (s : BmcState) (hw : s.Wf) :
+    api_query_selftest_results.run s = (s, .ok (.natPair s.hpm.selftest1 s.hpm.selftest2)) :=
+  query_selftest_results_refines s hw.hpmSelftest2
+theorem read_query_rollback_status (s : BmcState) :
+    api_query_rollback_status.run s = (s, (run .queryRollbackStatus s).2.toOutcome) := by
+  rw [query_rollback_status_refines s]
+  rcases he : s.hpm.rollbackEstimate with _ | _ | n <;> simp [run, Result.toOutcome, he]
+
+/-! ## 3. the generic step and history independence (main theorem) -/
+
+/-- ONE STEP, every operation: played against the byte-level BMC in any conforming state, the modelled
+operation leaves the BMC in the state the oracle denotes and returns / raises what the oracle means. -/
+theorem model_refines_oracle (c : Call) (s : BmcState) (hc : c.InRange) (hw : s.Wf) :
+    runModel c s = present (run c s) :=
+  runModel_refines c s hc hw
+
+/-- the state assumption is an invariant: it holds for the power-on state and after every in-range call -/
+theorem wf_invariant : ({} : BmcState).Wf ∧ ∀ (c : Call) (s : BmcState), c.InRange → s.Wf → (run c s).1.Wf :=
+  ⟨wf_init, wf_run⟩
+
+/-- a read does not change the BMC -/
+theorem read_leaves_bmc (c : Call) (s : BmcState) (h : c.isRead = true) : (run c s).1 = s :=
+  run_read c s h
+
+/-- HISTORIES: any finite sequence of in-range calls from any conforming state — the BMC ends where the
+oracle says, and the k-th call returns what the oracle means in the state at that moment. -/
+theorem history_refines (h : List Call) (s : BmcState) (hr : ∀ c ∈ h, c.InRange) (hw : s.Wf) :
+    modelHistory h s = ((specHistory h s).1, (specHistory h s).2.map Result.toOutcome) :=
+  (history_refines_wf h s hr hw).1
+
+/-- a read issued after ANY history returns the getter applied to the BMC's state at that moment
+(`(run c st).2` is `Spec.get_X addr st` by definition of `run`), and leaves that state in place -/
+theorem read_after_history (pre : List Call) (c : Call) (s : BmcState)
+    (hpre : ∀ x ∈ pre, x.InRange) (hc : c.InRange) (hread : c.isRead = true) (hw : s.Wf) :
+    modelHistory (pre ++ [c]) s =
+      ((specHistory pre s).1,
+       (specHistory pre s).2.map Result.toOutcome ++ [(run c (specHistory pre s).1).2.toOutcome]) := by
+  have hr : ∀ x ∈ pre ++ [c], x.InRange := by
+    intro x hx; rcases List.mem_append.mp hx with h | h
+    · exact hpre x h
+    · simp at h; subst h; exact hc
+  rw [history_refines _ s hr hw, specHistory_append]
+  simp [specHistory, run_read c _ hread]
+
+/-- HISTORY INDEPENDENCE: two histories (different calls, different lengths, different starting states)
+that leave the BMC in the same state make the same read return the same value. -/
+theorem read_depends_on_state_only (pre1 pre2 : List Call) (c : Call) (s1 s2 : BmcState)
+    (h1 : ∀ x ∈ pre1, x.InRange) (h2 : ∀ x ∈ pre2, x.InRange) (hc : c.InRange) (hread : c.isRead = true)
+    (hw1 : s1.Wf) (hw2 : s2.Wf) (same : (specHistory pre1 s1).1 = (specHistory pre2 s2).1) :
+    (modelHistory (pre1 ++ [c]) s1).2.getLast? = (modelHistory (pre2 ++ [c]) s2).2.getLast? := by
+  rw [read_after_history pre1 c s1 h1 hc hread hw1, read_after_history pre2 c s2 h2 hc hread hw2, same]
+  simp
+
+/-! ## 4. laws of the generated conversion tables (Gen/Tables.lean is rewritten from /repo on every run) -/
 
 /-- the spec's own boot-device code table is a bijection onto the non-reserved selectors -/
 theorem spec_bootdev_code_inverse (d : BootDev) : BootDev.ofCode d.code = some d := by
   cases d <;> rfl
+
+/-- CONVERT_BOOT_DEVICE_TO_RAW agrees with IPMI table 28-14 for every device -/
+theorem table_boot_device_to_raw (d : BootDev) : lookup bootDeviceToRaw (bootDevIdx d) = some d.code :=
+  bootDeviceToRaw_spec d
+/-- CONVERT_RAW_TO_BOOT_DEVICE agrees with IPMI table 28-14 for every selector 0..15 (reserved ↦ absent) -/
+theorem table_raw_to_boot_device (c : Nat) (h : c < 16) :
+    lookup rawToBootDevice c = (BootDev.ofCode c).map bootDevIdx :=
+  rawToBootDevice_spec c h
+/-- rawToBootDevice (bootDeviceToRaw d) = d -/
+theorem table_boot_device_roundtrip (d : BootDev) :
+    (lookup bootDeviceToRaw (bootDevIdx d)).bind (lookup rawToBootDevice) = some (bootDevIdx d) := by
+  have hc : d.code < 16 := by cases d <;> decide
+  rw [bootDeviceToRaw_spec, Option.bind_some, rawToBootDevice_spec _ hc, spec_bootdev_code_inverse]; rfl
+/-- boot mode / persistency coding of boot_options_to_data against get_boot_mode / get_boot_persistency -/
+theorem table_boot_flags_roundtrip (dev : BootDev) (efi persistent : Bool) (s : BmcState) :
+    let s' := (api_set_boot_options dev efi persistent).run s |>.1
+    get_boot_flags s' = { valid := true, persistent := persistent, efi := efi, device := dev.code } := by
+  have hc : dev.code < 16 := by cases dev <;> decide
+  simp only [set_boot_options_refines]
+  cases efi <;> cases persistent <;>
+    simp [get_boot_flags, set_boot_flags, set_boot_param, get_boot_param, Map.getD, Map.find?, Map.set, bitOf, bitsOf, b2n] <;>
+    omega
+
+/-- CONVERT_RAW_TO_USER_PRIVILEGE: codes 1..5 and Fh by meaning, every other code "reserved" -/
+theorem table_raw_to_user_privilege (c : Nat) (h : c < 16) : (lookup rawToUserPrivilege c).getD 0 = privNorm c :=
+  rawToUserPrivilege_spec c h
+/-- CONVERT_USER_PRIVILEGE_TO_RAW: every nameable privilege is sent as its own code -/
+theorem table_user_privilege_to_raw (p : Nat) (h : p ∈ privCodes) : lookup userPrivilegeToRaw p = some p :=
+  userPrivilegeToRaw_spec p h
+theorem table_user_privilege_roundtrip (p : Nat) (h : p ∈ privCodes) :
+    ((lookup userPrivilegeToRaw p).bind (lookup rawToUserPrivilege)).getD 0 = p := by
+  have hp : p < 16 := by simp [privCodes] at h; omega
+  rw [userPrivilegeToRaw_spec p h, Option.bind_some, rawToUserPrivilege_spec p hp]
+  simp [privCodes] at h; rcases h with rfl | rfl | rfl | rfl | rfl | rfl | rfl <;> rfl
+
+/-- CONVERT_RAW_TO_IP_SRC: address-source codes 0..4 by meaning, reserved codes absent -/
+theorem table_raw_to_ip_source (c : Nat) (h : c < 16) : lookup rawToIpSrc c = if c ≤ 4 then some c else none :=
+  rawToIpSrc_spec c h
+theorem table_ip_source_to_data : ipSrcToData = [(1, [1]), (2, [2])] := ipSrcToData_law
+
+/-- `data_to_vlan (vlan_to_data v) = v` for every id the API accepts; larger ids are refused -/
+theorem table_vlan_roundtrip (v : Nat) (h : v ≤ 4095) : (vlanToData v).bind dataToVlan = .ok v :=
+  dataToVlan_vlanToData v h
+theorem table_vlan_range (v : Nat) (h : 4095 < v) : vlanToData v = .pyError "ValueError" :=
+  vlanToData_rejects v h
+
+/-- IP / MAC address: what set_ip_address writes is what get_ip_address reads (formatting is the identity on
+the byte list; the dotted / colon text is produced from it by the harness' canonicaliser) -/
+theorem table_ip_roundtrip (ip : List Nat) (ch : Nat) (s : BmcState) (h : ch < 16) (hb : Bytes ip) :
+    ((api_get_ip_address ch).run ((api_set_ip_address ip ch).run s).1).2 = .ok (.ip ip) := by
+  rw [set_ip_address_refines ip ch s h hb, get_ip_address_refines ch _ h]
+  simp [get_lan_param, set_lan_param, Map.getD, Map.find?, Map.set]
+
+/-- LED function byte coding: 00h off, 01h..FAh blinking, FBh lamp test, FFh on -/
+theorem table_led_function_codes :
+    ledOff = 0 ∧ ledBlinkLo = 1 ∧ ledBlinkHi = 250 ∧ ledLampTest = 251 ∧ ledOn = 255 :=
+  led_constants_law
+/-- LedState.to_request followed by the BMC's parser: every expressible command arrives as itself -/
+theorem table_led_request_roundtrip (c : LedCmd) (hc : c.InRange) :
+    (ledToRequest c).bind (fun (f, n, col) => match parseLedCmd f n col with | some c' => .ok c' | none => .encodingError)
+      = .ok c := by
+  obtain ⟨c0, c1, c2, c3, c4⟩ := led_constants_law
+  cases c with
+  | restoreLocal => exact absurd hc (by simp [LedCmd.InRange])
+  | lampTest d color =>
+    obtain ⟨h3, h4⟩ := hc
+    simp [ledToRequest, parseLedCmd, c3, Nat.mod_eq_of_lt, *]
+  | override fn color =>
+    cases fn with
+    | off => have h4 : color < 16 := hc; simp [ledToRequest, parseLedCmd, ledFnOfBytes, c0, Nat.mod_eq_of_lt, *]
+    | on => have h4 : color < 16 := hc; simp [ledToRequest, parseLedCmd, ledFnOfBytes, c4, Nat.mod_eq_of_lt, *]
+    | blink o n =>
+      obtain ⟨h3, h4, h5, h6⟩ := hc
+      have : o ≠ 0 := by omega
+      have : o ≠ 255 := by omega
+      have : o ≠ 251 := by omega
+      have : o ≠ 252 := by omega
+      simp [ledToRequest, parseLedCmd, ledFnOfBytes, c1, c2, Nat.mod_eq_of_lt, *]
+/-- blinking off-durations outside 1..250 cannot be requested (EncodingError before any request) -/
+theorem table_led_blink_range (o n color : Nat) (h : o = 0 ∨ 250 < o) :
+    ledToRequest (.override (.blink o n) color) = .encodingError := by
+  obtain ⟨_, c1, c2, _, _⟩ := led_constants_law
+  simp only [ledToRequest, c1, c2]
+  rw [if_neg (by omega)]
+/-- wrapper methods pass the codes their names promise -/
+theorem table_wrapper_constants :
+    chassisControlOption = [0, 1, 2, 3, 4, 5] ∧ fruControlOption = [0, 1, 2, 3] ∧
+    fruActivationControl = [0, 1] ∧ policyCtrl = [0, 1, 2, 3] :=
+  ⟨chassisControlOption_law, fruControlOption_law, fruActivationControl_law, policyCtrl_law⟩
+
+/-! ## 5. the two decoders that were defective as shipped (kept as model variants; the harness probes the
+real code and uses the matching variant, so that the check fires again if a defect returns) -/
+
+/-- a BMC whose LED 2 of FRU 1 is overridden to blink 50 ms off / 70 ms on, colour 3 -/
+def ledState : BmcState := (run (.setLedState 1 2 (.override (.blink 5 7) 3)) {}).1
+
+/-- `LedState._from_response` as shipped reports the override ON-duration as the off-duration and no
+on-duration: it does NOT refine the BMC — while the intended decoder does (`read_get_led_state`). -/
+theorem shipped_led_decoder_wrong :
+    ledState.Wf ∧
+    ((api_get_led_state_shipped 1 2).run ledState).2 ≠ .ok (.led (get_led_view 1 2 ledState)) ∧
+    ((api_get_led_state 1 2).run ledState).2 = .ok (.led (get_led_view 1 2 ledState)) := by
+  have hw : ledState.Wf := wf_run _ _ (by simp [Call.InRange, LedCmd.InRange]) wf_init
+  refine ⟨hw, ?_, ?_⟩
+  · simp [api_get_led_state_shipped, getLedState, ledViewShipped, ledFnOf, api_eval, ledState, run, set_led, get_led,
+      get_led_view, LedFn.view, fmtLed, ledFnByte, ledOnByte, dfltLed, ledKey, Map.getD, Map.find?, Map.set, n2b, b2n,
+      led_constants_law.1, led_constants_law.2.1, led_constants_law.2.2.1, led_constants_law.2.2.2.2]
+  · rw [read_get_led_state 1 2 ledState (by decide) (by decide) hw]
+
+/-- a BMC whose port (interface 0, channel 5) has no link -/
+def noLinkState : BmcState := { ports := (({} : Map Port).set (portKey 0 5) { hasLink := false }) }
+
+/-- `get_port_state` as shipped raises UnboundLocalError when the port has no link; the intended one returns
+`(None, None)` as the oracle says -/
+theorem shipped_port_state_wrong :
+    ((api_get_port_state_shipped 5 0).run noLinkState).2 = .pyError "UnboundLocalError" ∧
+    ((api_get_port_state 5 0).run noLinkState).2 = .ok (.port none) := by
+  constructor <;>
+    simp [api_get_port_state_shipped, api_get_port_state, getPortState, api_eval, noLinkState, get_port, fmtPort,
+      bitsOf, portKey, Map.getD, Map.find?, Map.set]
+
+/-! ## non-vacuity: the hypotheses are satisfiable by non-trivial objects, the conclusions say something -/
+
+/-- a concrete history: writes of five families, then reads (one of them through a second "connection":
+the model has none, which is the point) -/
+def demoHistory : List Call :=
+  [.setWatchdog { timerUse := 4, dontStop := false, dontLog := true, action := 1, preInterrupt := 2,
+                  preInterval := 9, clearFlags := 0x3e, initial := 0x1234 },
+   .setBootOptions .remoteCd true false,
+   .setVlan 394 1,
+   .setUserName 2 [97, 98],
+   .setSensorThresholds 7 1 [some 10, none, none, some 200, none, some 255],
+   .setLedState 1 2 (.override (.blink 5 7) 3),
+   .getWatchdog, .getBootDevice, .getVlan 1, .getUserName 2, .getSensorThresholds 7 1, .getLedState 1 2, .getBootDevice]
+
+private theorem demo_in_range : ∀ c ∈ demoHistory, c.InRange := by
+  intro c hc
+  simp [demoHistory] at hc
+  rcases hc with rfl | rfl | rfl | rfl | rfl | rfl | rfl | rfl | rfl | rfl | rfl | rfl | rfl <;>
+    simp [Call.InRange, LedCmd.InRange]
+  intro i v h
+  rcases i with _ | _ | _ | _ | _ | _ | n <;> simp at h <;> omega
+
+/-- the oracle's reading of the demo history is not trivial: what was written comes back -/
+example :
+    ((specHistory demoHistory {}).2.drop 6).take 3 =
+      [.watchdog { timerUse := 4, dontLog := true, running := false, action := 1, preInterrupt := 2, preInterval := 9,
+                   expFlags := 0, initial := 0x1234, present := 0x1234 },
+       .bootDev (some .remoteCd), .nat 394] := by
+  decide
+
+/-- the MODEL, played against the byte-level BMC, returns exactly that (instance of `history_refines`) -/
+example :
+    (modelHistory demoHistory {}).2 = (specHistory demoHistory {}).2.map Result.toOutcome :=
+  congrArg Prod.snd (history_refines demoHistory {} demo_in_range wf_init)
+
+/-- a conforming state that is far from the power-on state -/
+example : (specHistory demoHistory {}).1.Wf ∧ (specHistory demoHistory {}).1 ≠ {} := by
+  exact ⟨(history_refines_wf demoHistory {} demo_in_range wf_init).2, by decide⟩
+
+/-- in-range predicates are not vacuous at their borders: VLAN 4095 is accepted and comes back, 4096 is refused -/
+example : (vlanToData 4095).bind dataToVlan = .ok 4095 ∧ vlanToData 4096 = .pyError "ValueError" := by
+  exact ⟨table_vlan_roundtrip 4095 (by decide), table_vlan_range 4096 (by decide)⟩
 
 end PyIpmi.Props.C07
